@@ -22,7 +22,7 @@ class RoundTrip(Harness):
     def __init__(self, cls, fmt, maxn, extended=False, notext=False):
         self.cls = cls; self.fmt = fmt; self.maxn = maxn; self.extended = extended; self.notext = notext
         self.name = f"C12.{cls}.{fmt}{'.dates' if extended else ''}{'.notext' if notext else ''}.n{maxn}"
-        self.bounds = {"rows / items": f"1..{maxn}", "suffix": ["", ".gz", ".bz2", ".xz"], "options": "sep in {',', ';', tab}, header, encoding in {utf-8, latin-1}",
+        self.bounds = {"rows / items": f"1..{maxn}", "suffix": ["", ".gz", ".bz2", ".xz"], "options": "sep in {',', ';', tab}, header, encoding in {utf-8, latin-1}" + (" and utf-16" if cls == "ListOfDicts" and fmt != "pickle" else ""),
                        "columns": ("date, datetime64[us], timedelta64[us] (with NaT), bool" if extended else "int64, float64 (with NaN), string" + (", date, datetime64[us], timedelta64[us] (with NaT), bool" if fmt in ("pickle", "npz") else "")) if cls == "DataFrame" else
                                   "text values from a pool with CR LF, LF, quotes, delimiters, tab, non-ASCII (a lone CR is not representable by Python 3.12's csv writer, which leaves it unquoted: outside the claim)"}
         if notext:
@@ -39,7 +39,7 @@ class RoundTrip(Harness):
             if sep != ",": w.append(["sep", sep]); r.append(["sep", sep])
             if choice("header", [True, False]) is False: w.append(["header", False]); r.append(["header", False])
         if self.fmt in ("csv", "json"):
-            enc = choice("encoding", ["utf-8", "latin-1"] + (["utf-16"] if self.notext else []))     # utf-16: not a superset of ASCII, so the encoding matters without any text in the data
+            enc = choice("encoding", ["utf-8", "latin-1"] + (["utf-16"] if self.notext or self.cls == "ListOfDicts" else []))     # utf-16: not a superset of ASCII, so the encoding matters without any text in the data
             if enc != "utf-8": w.append(["encoding", enc]); r.append(["encoding", enc])
         if self.cls == "DataFrame":
             cols = {"a": mk_col("i", n, "a"), "f": mk_col("f", n, "f"), "s": mk_col("T", n, "s")}
@@ -106,7 +106,10 @@ class RoundTrip(Harness):
         # dtypes / header-less column names depend on the real serializers; the concrete spec is evaluated on the real result
         return True
     def regions(self, inp):
-        return {"suffix-compression-not-offered-for-npz-parquet": T(self.fmt in ("npz", "parquet") and inp["suffix"] != "")}
+        enc = dict((k, v) for k, v in inp["wopts"]).get("encoding")
+        return {"suffix-compression-not-offered-for-npz-parquet": T(self.fmt in ("npz", "parquet") and inp["suffix"] != ""),
+                # writers that open the compressed stream in text mode themselves (DataFrame.write_csv writes bytes since e228105)
+                "utf16-text-stream-on-bz2-xz-has-no-byte-order-mark": T(enc == "utf-16" and inp["suffix"] in (".bz2", ".xz") and self.cls == "ListOfDicts")}
     def spec(self, inp, out):
         if isinstance(out, Raised): return [(f"write then read does not raise ({out.type}: {out.msg[:80]})", T(False))]
         want = {"": "none", ".gz": "gz", ".bz2": "bz2", ".xz": "xz"}[inp["suffix"]]
